@@ -57,9 +57,23 @@ RULE = ("paired runs of the real drivers on small planted low-rank problems (ord
         "and sparse), tucker_als (same), hosvd (sequential and not; automatic ranks at tol 3e-4..0.2 and given/mixed "
         "ranks on data with extra rank-one detail of relative size 1e-3..3e-2 so that the rank decision is sensitive): "
         "model tensor / c, fit, residual / c, chosen ranks and iteration counts against the unscaled run; not for "
-        "CP-APR / GCP (Poisson / GCP losses are not scale-equivariant; with a fixed guess gcp_opt is not either); all 6 mode relabellings for "
-        "N=3 of data, guess, ranks and dimorder for cp_als, tucker_als, hosvd (sequential and not) and gcp_opt "
-        "(cp_apr has a fixed mode order and is excluded). A mismatch above tolerance is a violation unless the same "
+        "CP-APR / GCP (Poisson / GCP losses are not scale-equivariant; with a fixed guess gcp_opt is not either); for tucker_als "
+        "also the factor matrices themselves (equal) and the core (times c), with its own perturbation control; all 6 mode "
+        "relabellings for N=3 and, for N=4, 3-cycles, 4-cycles (relabellings that differ from their inverse), an involution and "
+        "a random one, of data, guess, ranks (Tucker ranks that differ per mode), dimorder (not ascending) and — cp_als — optdims "
+        "(strict subsets in a shuffled order) and fixsigns on / off, for cp_als, tucker_als, hosvd (sequential and not) and gcp_opt "
+        "(cp_apr has a fixed mode order and is excluded); for cp_als additionally the returned factor LIST and weights against "
+        "the relabelling of the other run's (with fixsigns only in components with an even number / at most one negative mode, "
+        "established from a run without fixsigns; otherwise the recorded finding F18-fixsigns-relabel) and the reported "
+        "dimorder / optdims of both runs against the model of the option validation (c18_relabel_setup); relabel_cleanup: "
+        "ktensor.arrange / fixsigns on generated Kruskal models with integer column norms (N=2..4, rank 1..3, repeated / distinct "
+        "/ singleton extents, sign patterns all-negative / one / two / random negative dominant entries, zero columns, weights "
+        "that the sort has to reorder) and on their relabelling against the exact model c18_relabel_cleanup (1e-12 and equal sign "
+        "pattern) and against 'clean-up of the relabelled = relabelled clean-up'; relabel_setup: valid and malformed dimorder / "
+        "optdims (duplicates, out of range, too short, empty) for a problem and its relabelling against c18_relabel_setup; "
+        "scale_ttm: ttm(exclude_dims=n, transpose=True) and the Gram matrix of its unfolding for integer X and c X, c in "
+        "{2,3,1/2,3/4,1000}, ranks that differ per mode, wrong matrix sizes and modes out of range, exactly against c18_scale_ttm. "
+        "A mismatch above tolerance is a violation unless the same "
         "driver amplifies a 1e-13 / 1e-12 relative perturbation of the data (same representation) to within a factor 100 of "
         "it (tag illcond). non-trivial = both runs returned a model, the problem has more than one cell per mode and "
         "the two presentations really differ; distinct = distinct case hash")
@@ -82,6 +96,18 @@ ASSUMPTIONS = [
     "arithmetic, assuming both runs return, norm() != 0, the MTTKRP / innerprod interface laws (C02), the solver "
     "contract A.Y = B, and that every coefficient matrix of the unscaled run is zero or non-singular (automatic for "
     "rank 1); the paired runs check it on the implementation up to rounding",
+    "C18_relabel_cpals_run (whole-run mode relabelling of CP-ALS) is proved for the C09 model in exact arithmetic from: the "
+    "MTTKRP / innerprod interface laws (C02) for X and permute(X, p), mttkrp returning matrices of the documented size, the "
+    "same norm(), and the linear solver being a function of the system it is handed (the second run's solver answers the "
+    "request of mode k as the first run's answers that of mode p[k]); no solver contract and no regularity is needed. The "
+    "factor lists are relabellings of each other when fixsigns is off or every component has an even number / at most one "
+    "negative mode; otherwise only tensor, weights and reported numbers (C18_relabel_cpals_fixsigns_counterexample)",
+    "C18_scale_tucker_run (whole-run scaling of Tucker-ALS) is proved for the C10 model over the reals relative to a contract "
+    "of tensor.nvecs that does not mention scaling (whenever the Gram matrix has a matrix of leading eigenvectors in the "
+    "sense of Tk.LeadSpec — orthonormal, eigenvectors, decreasing eigenvalues, the rest dominated, flipsign convention — the "
+    "answer is one) and the hypothesis that every request of the unscaled run has exactly one admissible answer (distinct "
+    "leading eigenvalues; automatic for modes of extent one); that ARPACK / LAPACK meet the contract is not proved (C14 "
+    "checks it on recorded calls)",
 ]
 EXHAUSTIVE = {"quick": False, "thorough": False}
 TRUSTED_EXTRA = ["recording subclass of tensor/sptensor (attribute access seen from frames of pyttb driver files)"]
@@ -1247,7 +1273,8 @@ class RelabelSetup(Family):
                     optdims = [0, n]
                 elif bad == "opt-empty":
                     optdims = []
-            out.append({"shape": shape, "rank": rng.choice([1, 2]), "p": p, "dimorder": dimorder, "optdims": optdims,
+            # (rank <= every extent: the run behind the validation must not fail in the solver)
+            out.append({"shape": shape, "rank": min(rng.choice([1, 2]), min(shape)), "p": p, "dimorder": dimorder, "optdims": optdims,
                         "bad": bad, "dseed": rng.randrange(1 << 30)})
         return out
 
